@@ -116,6 +116,12 @@ type internalError struct {
 	origError         error
 }
 
+// Unwrap returns the underlying error, so that errors.Is / errors.As can match the original
+// node error, ErrExceedMaxSteps or a context error through the graph's error wrapper.
+func (i *internalError) Unwrap() error {
+	return i.origError
+}
+
 func (i *internalError) Error() string {
 	sb := strings.Builder{}
 	sb.WriteString(string("[" + i.typ + "]\n"))
